@@ -178,6 +178,21 @@ func (e *Engine) vapi(g *Goroutine, name string, args []Value, fn *ssa.Function)
 		e.p.sched.now = target
 		e.p.sched.yield = true
 		return nil, true
+	case "Quiesce":
+		// block until no other goroutine can run (they finished or are blocked)
+		others := func() bool {
+			for _, og := range e.p.gs {
+				if og != g && og.status != gDone && e.enabled(og) {
+					return true
+				}
+			}
+			return false
+		}
+		if others() {
+			g.wait = &waitState{kind: wCond, pred: func() bool { return !others() }, what: "Quiesce"}
+			return nil, false
+		}
+		return nil, true
 	case "NowNs":
 		return e.c64(e.p.sched.now - clockStart), true
 	}
